@@ -47,7 +47,7 @@ SHARED_INPLACE = {"file_path"}
 INHERITED = {"_base_dtype": ("fmd.row_groups", "origin")}
 PRESERVED_CTX = ["pandas_nulls", "fn", "open", "_given_dtypes"]
 PRESERVED_FMD = ["schema", "key_value_metadata", "created_by", "version"]
-PLUMBING = {"__init__", "__getstate__", "__setstate__", "_parse_header", "__getitem__"}
+PLUMBING = {"__init__", "__getstate__", "__setstate__", "_parse_header", "__getitem__", "__copy__", "__deepcopy__"}
 LIST_MUTATORS = {"append", "extend", "insert", "remove", "pop", "sort", "clear", "reverse"}
 THRIFT_DYNAMIC_CARRY = {"__getitem__": "Keep", "pickle": "Reset", "copy": "Keep", "deepcopy": "Keep"}
 
@@ -664,7 +664,7 @@ def analyse(repo):
             for t in n.targets:
                 if isinstance(t, ast.Name):
                     class_defaults[t.id] = n.value
-    for bad in ("__copy__", "__deepcopy__", "__reduce__", "__reduce_ex__", "__getattr__", "__getattribute__", "__setattr__", "__slots__"):
+    for bad in ("__reduce__", "__reduce_ex__", "__getattr__", "__getattribute__", "__setattr__", "__slots__"):
         if bad in methods or bad in class_defaults:
             raise TranslatorError("ParquetFile defines %s" % bad)
     for req in ("__init__", "_set_attrs", "__getitem__", "__getstate__", "__setstate__"):
@@ -863,7 +863,18 @@ def analyse(repo):
     shares_fmd = mapping.get("fmd") == ("self", "fmd")
     if any(not nrm for _, _, nrm in gs.info.fmd_writes):
         raise TranslatorError("__getstate__ writes the metadata object: %r" % gs.info.fmd_writes)
+    copy_via = copy_protocol(methods)           # how copy.copy / copy.deepcopy derive a handle: {"copy": "getstate"|"getitem", "deepcopy": "getstate"|"pickle"}
     for kind in ("pickle", "copy", "deepcopy"):
+        if kind == "copy" and copy_via["copy"] == "getitem":
+            # __copy__ = `return self[...]`: the copy is derived exactly like a selection
+            g = dict(derivs[0])
+            g = {"name": "copy", "writes": list(g["writes"]), "pols": dict(g["pols"]), "default": g["default"]}
+            derivs.append(g)
+            continue
+        if kind == "deepcopy" and copy_via["deepcopy"] == "pickle":
+            # __deepcopy__ = __getstate__, the metadata through pickle.loads(pickle.dumps(.)), __setstate__: derived like a pickled handle
+            derivation("deepcopy", gs, mapping, allf, "pickle", set())
+            continue
         # copy.copy(pf) hands state["fmd"] on as it is: when that is the parent's own object, an edit through either handle
         # later writes the other's metadata behind its back - recorded as the derivation not preserving the fmd fields
         shared = {"fmd." + f_ for f_ in PRESERVED_FMD} | {"fmd.shared_object"} if (kind == "copy" and shares_fmd) else set()
@@ -953,6 +964,45 @@ def analyse(repo):
            "preserved": ["origin"] + ["ctx." + c for c in PRESERVED_CTX] + ["fmd." + f for f in PRESERVED_FMD],
            "known_attrs": sorted(set(all_attrs) | set(ctx) | {"fmd"})}
     return inv
+
+
+def copy_protocol(methods):
+    """which derivation copy.copy / copy.deepcopy amount to; unknown shapes of __copy__ / __deepcopy__ -> fail closed"""
+    out = {"copy": "getstate", "deepcopy": "getstate"}
+    if "__copy__" in methods:
+        body = [st for st in methods["__copy__"].body if not (isinstance(st, ast.Expr) and isinstance(st.value, ast.Constant))]
+        ok = (len(body) == 1 and isinstance(body[0], ast.Return) and isinstance(body[0].value, ast.Subscript)
+              and isinstance(body[0].value.value, ast.Name) and body[0].value.value.id == "self" and isinstance(body[0].value.slice, ast.Slice))
+        if not ok:
+            raise TranslatorError("__copy__ is not `return self[<slice>]`")
+        out["copy"] = "getitem"
+    if "__deepcopy__" in methods:
+        fn = methods["__deepcopy__"]
+        calls, seen_get, seen_set, seen_rt = set(), False, False, False
+        for n in ast.walk(fn):
+            if isinstance(n, ast.Call):
+                nm = n.func.attr if isinstance(n.func, ast.Attribute) else getattr(n.func, "id", None)
+                calls.add(nm)
+                if nm == "__getstate__" and isinstance(n.func.value, ast.Name) and n.func.value.id == "self":
+                    seen_get = True
+                if nm == "__setstate__":
+                    seen_set = True
+                if nm == "loads" and n.args and isinstance(n.args[0], ast.Call) and getattr(n.args[0].func, "attr", None) == "dumps":
+                    seen_rt = True
+                if nm == "pop" and not (n.args and _const(n.args[0]) == "fmd"):
+                    raise TranslatorError("__deepcopy__ removes a state entry other than fmd")
+            elif isinstance(n, (ast.Assign, ast.AugAssign)):
+                for t in (n.targets if isinstance(n, ast.Assign) else [n.target]):
+                    if isinstance(t, ast.Subscript) and _const(t.slice) != "fmd":
+                        raise TranslatorError("__deepcopy__ edits a state entry other than fmd")
+                    if isinstance(t, ast.Attribute):
+                        raise TranslatorError("__deepcopy__ assigns attributes")
+            elif isinstance(n, ast.Delete):
+                raise TranslatorError("__deepcopy__ deletes")
+        if not (seen_get and seen_set and seen_rt) or not calls <= {"__getstate__", "__setstate__", "pop", "deepcopy", "loads", "dumps", "__new__", "dict", "type"}:
+            raise TranslatorError("__deepcopy__ is not getstate / pickle round trip of fmd / setstate: calls %s" % sorted(c for c in calls if c))
+        out["deepcopy"] = "pickle"
+    return out
 
 
 def failure_writes(fn):
